@@ -382,3 +382,9 @@ theorem C17_conversion_sites_strict :
     (∀ f ∈ Sympler.Gen.Validate.intConversions ++ Sympler.Gen.Validate.doubleConversions,
       f ∈ Sympler.Gen.Validate.strictFunctions) ∧
     Sympler.Gen.Validate.intConversions ≠ [] ∧ Sympler.Gen.Validate.doubleConversions ≠ [] := by decide
+
+/-- **wrongly typed expression results** (regenerated from `FunctionCompiler::compile`): an expression whose number of entries (scalar 1,
+vector 3, tensor 9) differs from what the module expects - in EITHER direction - is rejected; nothing is truncated silently. -/
+theorem C17_result_size_strict :
+    ∀ n ∈ [1, 3, 9], ∀ want ∈ [1, 3, 9], Sympler.Gen.Validate.resultSizeRejected n want = decide (n ≠ want) := by decide
+
